@@ -77,6 +77,18 @@ def features_table(res, prog, f):
         res.violation('C20.1f', 'C20.1f|features', f, f.line, '--features accepts %s but main_result handles %s: an accepted value would hit unimplemented!()' % (sorted(allowed), sorted(arms)))
     else:
         res.sample({'rule': 'C20.1f', 'values': sorted(allowed)})
+    # the value the exact-match arms see is the value clap validated: no argument modifier may relax the matching or
+    # substitute another string (ignore_case, aliases, default_missing_value, env, delimiters ...)
+    RELAX = re.compile(r'^clap(_builder)?::(builder::)?Arg::(ignore_case|alias|aliases|visible_alias|visible_aliases|short_alias|short_aliases|default_missing_value|default_missing_values|default_missing_value_os|default_value_if|default_value_ifs|env|env_os|value_delimiter|value_terminator|allow_hyphen_values|allow_negative_numbers|trailing_var_arg|last|raw)$')
+    aug = [g for g in prog.crate('minidump_stackwalk').fns if re.search(r'<Cli as clap::Args>::augment_args(_for_update)?$', g.qual)]
+    if not aug:
+        res.error('C20.1f', 'clap-derived augment_args of Cli not found')
+    for g in aug:
+        res.rule('C20.1f', 1)
+        for b, t in g.calls():
+            n = g.callee(t) or ''
+            if RELAX.search(n):
+                res.violation('C20.1f', 'C20.1f|modifier|%s' % n.split('::')[-1], g, t.get('line'), 'an option of the CLI is declared with %s: clap then accepts / substitutes strings that the exact-match arms in main_result do not handle (an accepted --features spelling would hit unimplemented!())' % n.split('::')[-1])
 
 
 def exit_rules(res, prog, c):
